@@ -106,6 +106,7 @@ def rule_conversion(ctx: Ctx, repo: Repo) -> Dict[str, str]:
     scenarios.append(("class of the method removed", trace(), lambda w: (w.remove("pkg.mod", "User"), w.remove("pkg.mod", "User.method"))))
     scenarios.append(("function replaced by a non-function value", trace(), lambda w: w.add("pkg.mod", "User.method", R("value", v=K(3)))))
     scenarios.append(("function replaced by a class", trace(), lambda w: w.add("pkg.mod", "User.method", CM.cls("pkg.mod", "User.method"))))
+    scenarios.append(("function replaced by a callable object (an instance with __call__)", trace(), lambda w: w.add("pkg.mod", "User.method", R("callable_obj", __module__=K("pkg.mod")))))
     scenarios.append(("function replaced by a settable property", trace(), lambda w: w.add("pkg.mod", "User.method", CM.prop(CM.func("pkg.mod", "User.method"), CM.func("pkg.mod", "User.method")))))
     scenarios.append(("function replaced by a property with a deleter", trace(), lambda w: w.add("pkg.mod", "User.method", CM.prop(CM.func("pkg.mod", "User.method"), None, CM.func("pkg.mod", "User.method")))))
     scenarios.append(("function replaced by a getter-less property", trace(), lambda w: w.add("pkg.mod", "User.method", CM.prop(None))))
@@ -254,11 +255,15 @@ def rule_status(ctx: Ctx, repo: Repo) -> None:
         h = repo.fn(CLI, hname)
         ctx.functions.add(h.fq)
         ps = h.positional_params()
-        variants = [(d, have) for d in ((False, True) if hname == "print_stub_handler" else (False,)) for have in (False, True)]
-        for diff, have in variants:
+        variants = [(d, have, False) for d in ((False, True) if hname == "print_stub_handler" else (False,)) for have in (False, True)]
+        variants += [(False, False, True)]  # every row is stale because the module itself is gone: importing it fails
+        for diff, have, gone in variants:
             log: List[Tuple[Any, ...]] = []
 
-            def hook(call, fname, fval, a, kw, st, _l=log, _have=have):
+            def hook(call, fname, fval, a, kw, st, _l=log, _have=have, _gone=gone):
+                if _gone and fname in ("importlib.import_module", "import_module", "__import__"):
+                    st.pending = st.pending or "ModuleNotFoundError"
+                    return U("module removed")
                 m = call.func.attr if isinstance(call.func, ast.Attribute) else None
                 if fname == "get_stub":
                     return R("stub") if _have else K(None)
@@ -286,7 +291,7 @@ def rule_status(ctx: Ctx, repo: Repo) -> None:
             args = R("args", module_path=K((K("pkg.mod"), K(None))), diff=K(diff), existing_annotation_strategy=S("strategy"), pep_563=K(False),
                      ignore_existing_annotations=K(False), config=S("config"), verbose=K(False), limit=K(10), disable_type_rewriting=K(False), sample_count=K(False))
             o = sc.run({ps[0]: args, ps[1]: K("stdout"), ps[2]: K("stderr")})
-            lab = f"{hname} diff={diff} traces={'some' if have else 'none'}"
+            lab = f"{hname} diff={diff} traces={'some' if have else ('none (module removed)' if gone else 'none')}"
             comp_ = [e for e in log if e[0] == "complain"]
             out_ = [e for e in log if e[0] == "print" and e[2] == K("stdout")]
             if not have:
